@@ -154,6 +154,12 @@ class CEMIHandler:
                 )
                 self.handle_data_secure_key_issue(cemi.data, _cemi_data_is_data_secure)
                 return
+            except ConversionError as err:
+                # The frame was authenticated but its decrypted APDU is malformed or of
+                # an unsupported service - discard it like an unparsable plain frame.
+                logger.warning("Decrypted Data Secure APDU invalid: %s", err)
+                self.xknx.connection_manager.cemi_count_incoming_error += 1
+                return
 
         telegram = cemi.data.telegram()
         telegram.direction = TelegramDirection.INCOMING
